@@ -22,6 +22,7 @@ type baseCockpit struct {
 	w       io.Writer
 	tasks   []*task.Task
 	mu      sync.Mutex
+	spinMu  sync.Mutex
 	spinner *spinner.Spinner
 	charSet int
 	closeCh chan bool
@@ -71,15 +72,17 @@ func (b *baseCockpit) add(t *task.Task) {
 
 func (b *baseCockpit) remove(t *task.Task) {
 	b.mu.Lock()
-	defer b.mu.Unlock()
-
 	for k, v := range b.tasks {
 		if v == t {
 			b.tasks = append(b.tasks[:k], b.tasks[k+1:]...)
 		}
 	}
+	s := b.spinner
+	// b.mu must not be held while calling into the spinner: its redraw goroutine holds the spinner's
+	// own lock while it takes b.mu in PreUpdate
+	b.mu.Unlock()
 
-	if b.spinner == nil {
+	if s == nil {
 		// nothing was ever added: the task was skipped or failed before its output started
 		return
 	}
@@ -88,9 +91,12 @@ func (b *baseCockpit) remove(t *task.Task) {
 	if t.Errored {
 		mark = aurora.Red("✗")
 	}
-	b.spinner.FinalMSG = fmt.Sprintf("%s Finished %s in %s\r\n", mark, aurora.Bold(t.Name), t.Duration())
-	b.spinner.Restart()
-	b.spinner.FinalMSG = ""
+
+	b.spinMu.Lock()
+	defer b.spinMu.Unlock()
+	s.FinalMSG = fmt.Sprintf("%s Finished %s in %s\r\n", mark, aurora.Bold(t.Name), t.Duration())
+	s.Restart()
+	s.FinalMSG = ""
 }
 
 func newCockpitOutputWriter(t *task.Task, w io.Writer, close chan bool) *cockpitOutputDecorator {
